@@ -225,6 +225,26 @@ def main():
                     po["discharged"] += 1
                 else:
                     po["broken"].append("theorem %s depends on %s" % (full, sorted(ax - ALLOWED_AXIOMS)))
+    # tie by translation of the template-export glue (C19)
+    gtie = None
+    if prop == "C19" and not args.replay:
+        gtie = props.run_glue()
+        if gtie["status"] == "proved":
+            listed, err = audit([props.GLUE_MODULE])
+            by = {d.get("theorem"): d for d in listed if "theorem" in d}
+            for t in props.GLUE_THEOREMS:
+                full = props.GLUE_MODULE + "." + t
+                d = by.get(full)
+                po["obligations"] += 1
+                if d is None:
+                    po["broken"].append("theorem missing: " + full)
+                    continue
+                ax = set(d.get("axioms", []))
+                po["axioms"][full] = sorted(ax)
+                if ax <= ALLOWED_AXIOMS:
+                    po["discharged"] += 1
+                else:
+                    po["broken"].append("theorem %s depends on %s" % (full, sorted(ax - ALLOWED_AXIOMS)))
     # the three translation ties composed (C03, C05): translated decoder, then translated score functions = FIRST / model scores
     e2e = "not used by this property"
     if prop in ("C03", "C05") and not args.replay:
@@ -261,10 +281,11 @@ def main():
     tab_lost = bool(ttie and ttie["status"] == "lost" and ttie["relevant"])
     dec_lost = bool(dtie and dtie["status"] == "lost" and dtie["relevant"])
     wir_lost = bool(wtie and wtie["status"] == "lost")
+    glue_lost = bool(gtie and gtie["status"] == "lost")
     if wir_lost and tier == "quick":
         tier = "thorough"        # C17: the thorough streams are the widened search
-    if (tie_lost or tab_lost or dec_lost) and tier == "quick":
-        tier_run = "escalated"
+    if (tie_lost or tab_lost or dec_lost or glue_lost) and tier == "quick":
+        tier_run = "escalated"   # (C19: ten times the quick tier's templates; the thorough tier's 200 000 take half an hour)
     else:
         tier_run = tier
     if tier == "thorough" and not args.replay and not po["broken"]:
@@ -277,6 +298,8 @@ def main():
             tie_mods.append(props.DEC_MODULE)
         if wtie and wtie["status"] == "proved":
             tie_mods.append(props.REP_MODULE)
+        if gtie and gtie["status"] == "proved":
+            tie_mods.append(props.GLUE_MODULE)
         ok, log = leanchecker(spec.lean_modules + tie_mods)
         po["leanchecker"] = "ok" if ok else log
         if not ok:
@@ -314,6 +337,10 @@ def main():
         po["broken"].append("tie by translation lost: the report constructors of /repo/v3/report are understood by go/wiring but what their fields are "
                             "initialised from is no longer the schema of C17 (Props/SrcRep.lean does not check: %s); the search was widened (%d "
                             "evaluations)" % (wtie["note"][:500], outcome.evaluations))
+    if glue_lost:
+        po["broken"].append("tie by translation lost: the template-export glue of /repo/v3/report is understood by go/glue but is no longer provably the "
+                            "model's exportWith / exportWithString (Props/SrcGlue.lean does not check: %s); the search was widened (%d "
+                            "evaluations)" % (gtie["note"][:500], outcome.evaluations))
     if dec_lost:
         po["broken"].append("tie by translation lost: the source text of %s is understood by go/decoders / go/tables but is no longer provably "
                             "the model's (Proofs/Decoders.lean or Proofs/Tables.lean does not check: %s); the search was widened (%s streams, "
@@ -373,6 +400,9 @@ def main():
                             "lost": "the source is understood but no longer provably the model; search widened"}[dtie["status"]]}
                 if dtie else "not used by this property"),
             "end_to_end_source": e2e,
+            "export_glue_translation": ({"status": gtie["status"], "translator": gtie["translator"],
+                                         "functions_outside_the_translators_subset": gtie["not_understood"],
+                                         "translator_output": gtie["note"][:600], "module": props.GLUE_MODULE} if gtie else "not used by this property"),
             "report_wiring_translation": ({"status": wtie["status"], "translator": wtie["translator"],
                                            "constructors_outside_the_translators_subset": wtie["not_understood"],
                                            "translator_output": wtie["note"][:600], "module": props.REP_MODULE} if wtie else "not used by this property"),
@@ -392,6 +422,9 @@ def main():
             "platform": core.go_info(),
             "library_hooks": "on (go build -tags verif)" if core.HOOKS else "OFF: /repo does not compile with -tags verif, "
                              "harness built against the exported API only: " + core.HOOKS_ERROR[-300:],
+            "per_metric_api": "called directly (T3 / T2 operations)" if core.TABS_DIRECT else
+                              "CHANGED: the harness's direct calls of the per-metric types' exported functions do not compile against "
+                              "/repo; the T3 / T2 operations answer api=changed: " + core.TABS_ERROR[-300:],
         },
         "assumptions": spec.assumptions,
         "wall_s": round(time.time() - t0, 2),
